@@ -69,6 +69,7 @@ PROPS["C01"] = dict(
     assumptions=["shift counts are >= 0 (Go uint)", "the 64-bit platform int"],
 )
 PROPS["C11"] = dict(
+    no_shrink=True,   # steps refer to earlier values by index: dropping steps would invalidate the program
     n_quick=30000, n_thorough=1500000, shards=8,
     rule="cases: programs of 2-14 steps that create values (errs.New, plain errors, nil, typed-nil *Error, typed-nil foreign error, &Error{}), "
          "Append them (accumulator = any earlier value incl. the latest result, 0-4 arguments drawn from earlier values incl. aggregates and "
